@@ -4,10 +4,12 @@ use crate::report::Tier;
 
 pub mod c01;
 pub mod c02;
+pub mod c04;
 pub mod c05;
 pub mod c06;
 pub mod c07;
 pub mod c09;
+pub mod c10;
 pub mod c11;
 pub mod c12;
 pub mod c13;
@@ -21,11 +23,13 @@ pub fn run(prop: &str, tier: Tier, seed: u64) -> Option<i32> {
     Some(match prop {
         "C01" => c01::run(tier, seed),
         "C02" => c02::run(tier, seed),
+        "C04" => c04::run(tier, seed),
         "C05" => c05::run(tier, seed),
         "C08" => c02::run_c08(tier, seed),
         "C06" => c06::run(tier, seed),
         "C07" => c07::run(tier, seed),
         "C09" => c09::run(tier, seed),
+        "C10" => c10::run(tier, seed),
         "C11" => c11::run(tier, seed),
         "C12" => c12::run(tier, seed),
         "C13" => c13::run(tier, seed),
@@ -40,10 +44,12 @@ pub fn replay(prop: &str, witness: &serde_json::Value) -> Option<i32> {
     Some(match prop {
         "C01" => c01::replay(witness),
         "C02" | "C08" => c02::replay(witness),
+        "C04" => c04::replay(witness),
         "C05" => c05::replay(witness),
         "C06" => c06::replay(witness),
         "C07" => c07::replay(witness),
         "C09" => c09::replay(witness),
+        "C10" => c10::replay(witness),
         "C11" => c11::replay(witness),
         "C12" => c12::replay(witness),
         "C13" => c13::replay(witness),
